@@ -36,7 +36,11 @@ def generate(tape, tier="quick"):
         chain.append(gen_adapter(tape, PASS))
     n_events = tape.weighted([(12, 4), (25, 4), (45, 2), (60, 1)])
     events = gen_events(tape, 1, n_events)
-    return {"engine": "E3", "src": {"units": tape.choice(["", "m", "km"])},
+    src = {"units": tape.choice(["", "m", "km"])}
+    if tape.chance(1, 4):
+        from ..grids import gen_structured
+        src["grid"] = gen_structured(tape, max_dim=2, max_len=3)
+    return {"engine": "E3", "src": src,
             "consumers": [{"chain": chain, "units": None}], "events": events}
 
 
